@@ -71,6 +71,12 @@ pub fn exec(input: &[u64]) -> Vec<u64> {
             let status = *rs.get_status();
             vec![resp_index(status), u8::from(MessageClass::Request(method)) as u64]
         }
+        12 => {
+            // the observe action a request reports for an Observe option holding x in its shortest form
+            let mut rq: coap_lite::CoapRequest<u8> = coap_lite::CoapRequest::new();
+            rq.message.add_option(CoapOption::Observe, Vec::from(coap_lite::option_value::OptionValueU32(x as u32)));
+            match rq.get_observe_flag() { None => vec![0], Some(Ok(f)) => vec![1, 0, usize::from(f) as u64], Some(Err(_)) => vec![1, 1] }
+        }
         _ => vec![998],
     }
 }
@@ -88,4 +94,10 @@ pub fn gen(_tier: &str, _r: &mut Rng, emit: &mut dyn FnMut(Vec<u64>)) {
     for x in 0..258u64 { emit(vec![11, x]); }
     for b in 0..256u64 { emit(vec![11, 512 + b]); }
     for x in 0..300u64 { emit(vec![8, x]); }
+    // observe numbers as a request reports them: small numbers, every power of two and its neighbours, and every number
+    // that is 0 or 1 modulo 2^8, 2^16 or 2^24 with one other byte set
+    for x in 0..600u64 { emit(vec![12, x]); }
+    for k in 0..32u32 { for d in [-1i64, 0, 1, 2] { let v = (1i64 << k) + d; if v >= 0 && v < (1 << 32) { emit(vec![12, v as u64]); } } }
+    for low in [0u64, 1] { for sh in [8u32, 16, 24] { for hi in [1u64, 2, 0x7F, 0x80, 0xFF] { emit(vec![12, (hi << sh) | low]); emit(vec![12, (hi << sh) | (hi << 8) | low]); } } }
+    emit(vec![12, u32::MAX as u64]); emit(vec![12, u32::MAX as u64 - 1]);
 }
